@@ -1944,10 +1944,17 @@ impl TransactionBuilder {
             }
             Some(Ordering::Less) => Err(JsError::from_str("Insufficient input in transaction")),
             Some(Ordering::Greater) => {
+                // a leftover that lists only zero quantities or policies with nothing under them holds no token:
+                // the token branch would create no change output for it and pour the change into the last
+                // output the caller asked for
                 fn has_assets(ma: Option<MultiAsset>) -> bool {
-                    ma.map(|assets| assets.len() > 0).unwrap_or(false)
+                    ma.map(|assets| assets.partial_cmp(&MultiAsset::new()) == Some(Ordering::Greater))
+                        .unwrap_or(false)
                 }
-                let change_estimator = input_total.checked_sub(&output_total)?;
+                let mut change_estimator = input_total.checked_sub(&output_total)?;
+                if !has_assets(change_estimator.multiasset()) {
+                    change_estimator = Value::new(&change_estimator.coin());
+                }
                 if has_assets(change_estimator.multiasset()) {
                     fn will_adding_asset_make_output_overflow(
                         output: &TransactionOutput,
